@@ -9,6 +9,7 @@ for d in sorted(glob.glob(V + '/seeded/*')):
     files = re.findall(r'^\+\+\+ b/(\S+)', patch, re.M)
     caught = re.findall(r'failed obligation (\S+)', log)
     bind = 'bind.txt' in log
+    standins = re.findall(r'replays/\S+/standin-([A-Za-z0-9_-]+)\.txt', log)
     meta = {
         'seed': name,
         'property': name[:3],
@@ -20,7 +21,7 @@ for d in sorted(glob.glob(V + '/seeded/*')):
         'demo_fails_with_change': 'demo with patch: FAIL (expected)' in log,
         'demo_passes_without_change': 'demo without patch: PASS (expected)' in log,
         'check_exit_on_changed_tree': (re.findall(r'check \S+ on patched tree: exit (\d+)', log) or [None])[0],
-        'caught_by': caught[:3] if caught else (['contract no longer binds to the code (bind)'] if bind else []),
+        'caught_by': (caught[:3] if caught else (['contract no longer binds to the code (bind)'] if bind else [])) + ['bounded stand-in ' + x for x in dict.fromkeys(standins)],
         'demonstration': 'demo_test.go.txt',
         'notes': 'notes.md',
     }
